@@ -18,6 +18,7 @@ pub fn run(ctx: &Ctx, rep: &mut Report) {
     let mut n = 0u64;
     for b in gen::BRANCHES.iter() {
         let fs = fields_of(b, &mut r, Some(12));
+        let opts = super::c11::optional_fields(b, &mut r);
         for f in &fs {
             if !ctx.mine(item) {
                 item += 1;
@@ -31,6 +32,16 @@ pub fn run(ctx: &Ctx, rep: &mut Report) {
                 let contexts = if ctx.thorough() { 512 } else { 64 };
                 for c in 0..contexts {
                     let mut bits = fresh(b, &mut r);
+                    // some contexts put the optional numeric fields of the message at their
+                    // 'not available' codes (all of them, or a random subset): an enumerated
+                    // code must not depend on whether a position, speed, ... is available
+                    if c % 4 == 1 || c % 8 == 2 {
+                        for o in &opts {
+                            if c % 8 == 2 || r.bool() {
+                                bits.put(o.start as usize, o.width as usize, super::c11::sentinel_of(o.key, o.width as usize).unwrap());
+                            }
+                        }
+                    }
                     bits.put(f.start as usize, width, code);
                     n += 1;
                     rep.class(format!("{}|{}|{}", b.name, f.key, code));
